@@ -2,10 +2,10 @@
 from . import common as C
 
 PID = 'C16'
-SECTIONS = ['detect']
+SECTIONS = ['detect', 'resolver']
 TARGETS = ['theories/Props/C16.vo']
 ORACLE_TARGETS = ['theories/Spec/UriClass.vo']
-PROOF_FILES = ['Proofs/DetectProofs.v', 'Lib/Bytes.v', 'Lib/Reg.v']
+PROOF_FILES = ['Proofs/DetectProofs.v', 'Proofs/ResolverProofs.v', 'Lib/Bytes.v', 'Lib/Reg.v']
 PINS = C.load_pins('C16')
 THEOREMS = PINS['theorems']
 
@@ -63,6 +63,27 @@ def run(tier, seed):
             i = sorted(bad2)[0]
             rep.broke('correspondence Model.Detect.detect vs detect_parser_type', {'first_disagreement': cases[i], 'count': len(bad2)})
         rep.cov['traces_validated_against_impl'] = len(cases) - len(bad2)
+    # wiring of create_default_resolvers(): property oracle on the real table
+    rows, err = C.run_harness('resolvers', seed, 0)
+    if err:
+        rep.broke('harness stream resolvers failed', err)
+    names = ['GitHubActions', 'Npm', 'CratesIo', 'GoProxy', 'PnpmCatalog', 'Jsr', 'PyPI']
+    seen = 0
+    for row in rows or []:
+        k = row['in']['key']
+        if k == 'count':
+            if row['out'] != 7:
+                rep.violation(f'create_default_resolvers() has {row["out"]} entries, expected one per ecosystem (7)', {'resolvers': row['out']})
+            continue
+        seen += 1
+        o = row['out']
+        want_source = 1 if k == 4 else k   # pnpm catalogs are fetched from the npm registry
+        if o == 'missing' or o['matcher'] != k or o['registry'] != want_source or o['parsed'] != [k]:
+            rep.violation(f'documents of {names[k]} are not handled with that ecosystem\'s own rules: resolver entry {o} '
+                          f'(matcher/registry/parsed registry types; expected matcher={k}, registry={want_source}, parsed=[{k}])',
+                          {'registry_type': names[k], 'resolver_entry': o, 'replay': 'vlsp-harness resolvers'})
+    rep.cov['streams']['resolvers'] = {'rows': seen}
+    rep.cov['evaluations'] += seen
     if tier == 'thorough' and proofs_ok:
         C.coqchk(rep, ['VL.Props.C16'])
     rep.assumptions = ['URIs are arbitrary byte strings in the theorems; the harness feeds valid UTF-8 only (Rust &str)',
